@@ -324,6 +324,57 @@ def rule_r4(rep, repo):
             rep.ok("R4.cartesian-dimension-generic", "Grid.moments[cartesian]", f.loc(), "no dimension-specific construct")
 
 
+def rule_r5(rep, repo, widths):
+    """Shape abstract interpretation of the Cartesian / radial parts of Grid.moments for grids of
+    dimension 1, 2 and 3: no broadcast, unpack, index or axis failure."""
+    from gridlint import e7
+    f = repo.method("Grid", "moments")
+    body = strip_docstring(f.node.body)
+    loop = next((s for s in body if isinstance(s, ast.For) and "center" in norm(s.target)), None)
+    n = 0
+    for tm in ("cartesian", "radial"):
+        for D in (1, 2, 3):
+            n += 1
+            w = D if tm == "cartesian" else None
+            env = {"self.points": ("arr", ("N", D)), "self.weights": ("arr", ("N",)), "func_vals": ("arr", ("N",)),
+                   "centers": ("arr", (4, D)), "center": ("arr", (D,)), "type_mom": ("str", tm),
+                   "all_orders": ("arr", (5, w)) if w else ("arr", (5,)), "orders": ("unknown",)}
+            si = e7.CShapes(env, None)
+            si.fields = {"points": env["self.points"], "weights": env["self.weights"]}
+            # fold the type dispatch by textual substitution of the guards
+            def run_block(stmts):
+                for st in stmts:
+                    if isinstance(st, ast.If):
+                        keep = _type_guard(st.test, tm)
+                        if keep is True:
+                            run_block(st.body)
+                            continue
+                        if keep is False:
+                            run_block(st.orelse)
+                            continue
+                    si.stmt(st)
+            run_block(loop.body)
+            cons = f"Grid.moments[{tm},dim={D}]"
+            if si.problems:
+                kind, text, node = si.problems[0]
+                rep.violation("R5.moment-shapes", "basegrid.Grid.moments", f"{tm}:dim={D}:{kind}",
+                              f"type_mom={tm!r} on a {D}-dimensional grid: {text}", repo.rel("basegrid", node))
+            else:
+                rep.ok("R5.moment-shapes", cons, repo.rel("basegrid", loop),
+                       f"integral has shape {e7.show_shape(si.env.get('integral', e7.UNKNOWN)) if si.env.get('integral', ('x',))[0] == 'arr' else si.env.get('integral', ('unknown',))[0]}")
+    rep.floor("moment shape configurations", n, 6)
+
+
+def _type_guard(test, tm):
+    if isinstance(test, ast.Compare) and norm(test.left) == "type_mom":
+        c = test.comparators[0]
+        if isinstance(test.ops[0], ast.Eq) and isinstance(c, ast.Constant):
+            return c.value == tm
+        if isinstance(test.ops[0], ast.In) and isinstance(c, (ast.Tuple, ast.List)):
+            return tm in [e.value for e in c.elts if isinstance(e, ast.Constant)]
+    return None
+
+
 def _guard_allows(test_txt, pol, key):
     """Can a guard over type_mom be satisfied (with the given polarity) when type_mom == key?"""
     try:
@@ -349,6 +400,7 @@ def run(tier="quick", root="/repo", evidence_dir=None, quiet=False):
     gen_keys = rule_r2(rep, repo)
     rule_r3(rep, repo, gen_keys)
     rule_r4(rep, repo)
+    rule_r5(rep, repo, None)
     import numpy
     import scipy
     rep.extra.update({"numpy": numpy.__version__, "scipy": scipy.__version__,
